@@ -465,6 +465,23 @@ def scn_context(T, case):
     ctxcontract.scenario(T, case, "C16")
 
 
+# ------------------------------------------------------------------------------------ BasicOptimizer: a run does not depend on the runs before it
+def cases_basic_runs(tier):
+    from contracts import C15
+
+    return C15.cases_callbacks(tier)
+
+
+def scn_basic_runs(T, case):
+    """'Independent of other optimizations executed earlier in the same process' for the convenience class: the second and the third
+    run of one BasicOptimizer object deliver every event to each callback once, as the first did - also when the first run ended with
+    an exception (C15's scenario under this property's prefix)."""
+    from contracts import C15
+    from contracts.reuse import Renamed
+
+    C15.scn_callbacks(Renamed(T, "C15.basic.", "C16.basic_optimizer."), case)
+
+
 SCENARIOS = [
     Scenario("generator_construction_and_hand_over", scn_rng, cases_rng, {"quick": 1, "thorough": 1}),
     Scenario("sampler_passes_generator_to_scipy", scn_sampler_frame, cases_sampler_frame, {"quick": 1, "thorough": 3}),
@@ -473,6 +490,7 @@ SCENARIOS = [
     Scenario("package_frame_scan", scn_scan, cases_scan, {"quick": 1, "thorough": 1}),
     Scenario("native_traces_under_hostile_conditions", scn_native, cases_native, {"quick": 1, "thorough": 4}),
     Scenario("plugin_manager_per_context", scn_context, cases_context, {"quick": 1, "thorough": 1}),
+    Scenario("basic_optimizer_runs_are_independent", scn_basic_runs, cases_basic_runs, {"quick": 1, "thorough": 2}),
 ]
 
 MANIFEST = {
